@@ -10,6 +10,10 @@ const MIB: usize = 1024 * 1024;
 enum Op {
     Alloc(u8, usize), // pool index, bytes
     AllocRelease(u8, usize),
+    /// allocate and, if granted, read total_used() while still holding the grant. Only used in scenarios
+    /// where every OTHER thread touches a single pool, so the five loads of total_used() contain one
+    /// foreign variable and the sum is the usage of one instant (no torn snapshot, no false alarm).
+    AllocObserve(u8, usize),
 }
 fn pool(i: u8) -> Pool {
     match i {
@@ -38,11 +42,21 @@ fn scenario(name: &str, bound: usize, threads: Vec<Vec<Op>>) -> Scenario {
                 let mut hs = Vec::new();
                 for ops in threads.iter().cloned() {
                     let (b, ledger) = (b.clone(), ledger.clone());
+                    let (icb2, nm2) = (icb.clone(), nm.clone());
                     hs.push(shuttle::thread::spawn(move || {
                         for op in ops {
                             match op {
                                 Op::Alloc(p, n) => {
                                     if b.allocate(pool(p), n).is_ok() {
+                                        ledger.lock().unwrap().push((p, n));
+                                    }
+                                }
+                                Op::AllocObserve(p, n) => {
+                                    if b.allocate(pool(p), n).is_ok() {
+                                        let used = b.total_used();
+                                        if used > limit {
+                                            icb2.event(&format!("C39/{nm2}/tracked-usage-above-limit-after-successful-allocation"), &format!("total_used() <= {} MiB while the grant is held", limit / MIB), &format!("total_used() = {} KiB right after allocate({}, {} KiB) succeeded", used / 1024, pool(p).name(), n / 1024));
+                                        }
                                         ledger.lock().unwrap().push((p, n));
                                     }
                                 }
@@ -92,6 +106,7 @@ fn scenarios(ctx: &Ctx) -> Vec<Scenario> {
         scenario("2t-two-pools-3MiB", b2, vec![vec![Op::Alloc(1, 3 * MIB)], vec![Op::Alloc(0, 3 * MIB)]]),
         scenario("2t-same-pool-3MiB", b2, vec![vec![Op::Alloc(1, 3 * MIB)], vec![Op::Alloc(1, 3 * MIB)]]),
         scenario("2t-alloc-release-vs-alloc", b2, vec![vec![Op::AllocRelease(1, 3 * MIB), Op::Alloc(1, MIB + MIB / 2)], vec![Op::Alloc(0, 3 * MIB)]]),
+        scenario("2t-release-vs-observed-alloc", 3, vec![vec![Op::AllocRelease(1, 3 * MIB), Op::AllocRelease(1, 2 * MIB)], vec![Op::AllocObserve(0, 3 * MIB)]]),
         scenario("2t-shared-vs-query", b2, vec![vec![Op::Alloc(4, 3 * MIB)], vec![Op::Alloc(1, MIB + MIB / 2), Op::Alloc(1, MIB + MIB / 2)]]),
         scenario("3t-three-pools", if q { 3 } else { 4 }, vec![vec![Op::Alloc(0, MIB + MIB / 2)], vec![Op::Alloc(1, MIB + MIB / 2)], vec![Op::Alloc(2, MIB + MIB / 2)]]),
     ];
